@@ -1,7 +1,7 @@
 #!/bin/bash
 # usage: tools/seed_eval.sh Cxx   -- confirm a seeded change in /tmp/seed_Cxx and run the check against it
 id=$1
-d=/tmp/seed_$id
+d=${2:-/tmp/seed_$id}
 cd $d || exit 2
 PYTHONPATH=$d timeout 900 /venv/bin/python -W ignore demo_seed.py > /tmp/sd_$id.with 2>&1; echo "demo with change: exit=$?"
 git stash -q
